@@ -2,7 +2,7 @@
    and eval.RunDSL() and the same observations computed from the model, compared by
    vm_compute on the cases the harness wrote. *)
 From Eval Require Import Model.
-From Coq Require Import PeanoNat.
+From Coq Require Import PeanoNat NArith.
 
 Definition res_eq_dec (a b : res) : {a = b} + {a <> b}.
 Proof. decide equality. apply list_eq_dec, Nat.eq_dec. Defined.
@@ -30,17 +30,17 @@ Proof. decide equality. apply list_eq_dec, err_eq_dec. Defined.
 
 (* Roots(): a case is (index, number of root objects, DependsOn table, registration
    order, what Context.Roots() returned) *)
-Definition roots_case := (nat * nat * list (list nat) * list nat * res)%type.
+Definition roots_case := (N * nat * list (list nat) * list nat * res)%type.
 
-Definition roots_mismatches (cs : list roots_case) : list nat :=
+Definition roots_mismatches (cs : list roots_case) : list N :=
   flat_map (fun c => match c with (i, n, tbl, regs, o) =>
      if res_eq_dec (roots n (fun r => nth r tbl []) regs) o then [] else [i] end) cs.
 
 (* RunDSL(): a case is (index, program, callback trace, class of the returned error,
    what Context.Roots() returned before RunDSL) *)
-Definition run_case := (nat * program * list event * outcome * res)%type.
+Definition run_case := (N * program * list event * outcome * res)%type.
 
-Definition run_mismatches (cs : list run_case) : list nat :=
+Definition run_mismatches (cs : list run_case) : list N :=
   flat_map (fun c => match c with (i, p, tr, o, ro) =>
      let m := run_dsl p in
      if list_eq_dec event_eq_dec (fst m) tr then
@@ -48,6 +48,39 @@ Definition run_mismatches (cs : list run_case) : list nat :=
          if res_eq_dec (roots_of p (s_regs (init_state p))) ro then [] else [i]
        else [i]
      else [i] end) cs.
+
+(* thorough tier: every digraph on 4 roots x the 24 registration orders, compactly:
+   (graph code g, observed result per order); bit (4*i+j) of g <-> root i depends on
+   root j; a result is the index of the returned order among the 24 permutations in
+   lexicographic order, 24 for a cycle error, 25 for anything else *)
+Fixpoint perms_fuel (f : nat) (xs : list nat) : list (list nat) :=
+  match f with
+  | 0 => [[]]
+  | S f' => match xs with
+            | [] => [[]]
+            | _ => flat_map (fun x => map (cons x) (perms_fuel f' (remove Nat.eq_dec x xs))) xs
+            end
+  end.
+
+Definition perms4 : list (list nat) := perms_fuel 4 [0; 1; 2; 3].
+
+Definition deps4 (g : N) (i : nat) : list nat :=
+  filter (fun j => N.testbit g (N.of_nat (4 * i + j))) [0; 1; 2; 3].
+
+Fixpoint index_of (l : list nat) (ps : list (list nat)) (k : N) : N :=
+  match ps with
+  | [] => 25%N
+  | p :: r => if list_eq_dec Nat.eq_dec l p then k else index_of l r (N.succ k)
+  end.
+
+Definition code4 (r : res) : N :=
+  match r with Ok l => index_of l perms4 0%N | Cycle => 24%N | OutOfFuel => 26%N end.
+
+Definition graph4_case := (N * list N)%type.
+
+Definition graph4_mismatches (cs : list graph4_case) : list N :=
+  flat_map (fun c => match c with (g, obs) =>
+     if list_eq_dec N.eq_dec (map (fun o => code4 (roots 4 (deps4 g) o)) perms4) obs then [] else [g] end) cs.
 
 (* short constructors for the case files *)
 Definition E := mkE.
